@@ -346,9 +346,11 @@ func (c *client) setupRequestChan() chan clientRequest {
 	requests := make(chan clientRequest)
 
 	c.doRequest = func(ctx context.Context, cr clientRequest) (clientResponse, error) {
+		vhook("call.enq", nil, "a", cr.ready, "id", cr.req.ID, "method", cr.req.Method)
 		select {
 		case requests <- cr:
 		case <-c.exiting:
+			vhook("call.exiterr", nil, "a", cr.ready)
 			return clientResponse{}, fmt.Errorf("websocket routine exiting")
 		}
 
@@ -364,9 +366,11 @@ func (c *client) setupRequestChan() chan clientRequest {
 		for {
 			select {
 			case resp = <-cr.ready:
+				vhook("call.recv", nil, "a", cr.ready, "id", resp.ID, "err", resp.Error != nil && resp.Error.Code == eTempWSError)
 				break loop
 			case <-ctxDone: // send cancel request
 				ctxDone = nil
+				vhook("call.ctxdone", nil, "a", cr.ready, "id", cr.req.ID)
 
 				rp, err := json.Marshal([]param{{v: reflect.ValueOf(cr.req.ID)}})
 				if err != nil {
@@ -383,7 +387,9 @@ func (c *client) setupRequestChan() chan clientRequest {
 				}
 				select {
 				case requests <- cancelReq:
+					vhook("call.cancelenq", nil, "a", cr.ready, "ca", cancelReq.ready)
 				case <-c.exiting:
+					vhook("call.cancelexit", nil, "a", cr.ready)
 					log.Warn("failed to send request cancellation, websocket routing exited")
 				}
 
@@ -463,11 +469,13 @@ func (c *client) makeOutChan(ctx context.Context, ftyp reflect.Type, valOut int)
 
 				switch chosen {
 				case 0:
+					vhook("buf.close", nil, "s", ch.Pointer(), "cause", "ctx")
 					ch.Close()
 					return
 				case 1:
 					if ok {
 						vvval := val.Interface().(reflect.Value)
+						vhook("buf.in", nil, "s", ch.Pointer())
 						buf.PushBack(vvval)
 						if buf.Len() > 1 {
 							if buf.Len() > 10 {
@@ -477,22 +485,27 @@ func (c *client) makeOutChan(ctx context.Context, ftyp reflect.Type, valOut int)
 							}
 						}
 					} else {
+						vhook("buf.inclosed", nil, "s", ch.Pointer())
 						incoming = nil
 					}
 
 				case 2:
+					vhook("buf.out", nil, "s", ch.Pointer())
 					buf.Remove(front)
 				}
 
 				if incoming == nil && buf.Len() == 0 {
+					vhook("buf.close", nil, "s", ch.Pointer(), "cause", "drained")
 					ch.Close()
 					return
 				}
 			}
 		}()
 
+		vhook("sink.new", nil, "s", ch.Pointer())
 		return ctx, func(result []byte, ok bool) {
 			if !ok {
+				vhook("sink.close", nil, "s", ch.Pointer())
 				close(incoming)
 				return
 			}
@@ -508,9 +521,12 @@ func (c *client) makeOutChan(ctx context.Context, ftyp reflect.Type, valOut int)
 				return
 			}
 
+			vhook("sink.push", nil, "s", ch.Pointer())
 			select {
 			case incoming <- val:
+				vhook("sink.pushed", nil, "s", ch.Pointer())
 			case <-ctx.Done():
+				vhook("sink.dropped", nil, "s", ch.Pointer())
 			}
 		}
 	}
